@@ -130,3 +130,13 @@ Definition pbts_eqb (a b : list pbt) : bool :=
      | _, _ => false
      end) a b.
 Definition shown_bt (l : list bt) : list pbt := map (fun b => let '(k, h, t) := b in (k, h, time_unit t)) l.
+
+(* ---- differential case ---- *)
+Record bcase := { bk_case : case; bk_func : name; bk_printed : list pbt }.
+Definition bk_istream (k : case) : istream :=
+  map (fun r : N * bool * N * N => let '(tid, b, i, t) := r in (tid, if b then IEnt i t else IExt i t)) (k_recs k).
+Definition bk_is_func (b : bcase) (i : N) : bool := name_eqb (nth (N.to_nat i) (k_syms (bk_case b)) []) (bk_func b).
+Definition agree_bt (b : bcase) : bool :=
+  pbts_eqb (shown_bt (backtraces (bk_is_func b) (k_tids (bk_case b)) (bk_istream (bk_case b)))) (bk_printed b).
+Definition okc_bt (b : bcase) : bool :=
+  ok_backtraces (bk_is_func b) (k_tids (bk_case b)) (bk_istream (bk_case b)) (bk_printed b).
